@@ -3,9 +3,9 @@ import LSProofs.Gen.StepG
 # C01 for the code as translated from the current source
 
 `histories_refine_string` (Props/C01.lean) is about the hand model.  Here the same statement is about `runG`: the
-28 public operations executed by `stepG`, whose `Repr`-level calls are the *translations* of `src/repr.rs` that
-`tools/rs2lean.py` regenerates on every run (37 functions; `retain`, the integer writer and the decoders stay
-hand-modelled).  It follows from the tie theorems (`LSProofs/Gen`) and `run_refines`.
+28 public operations executed by `stepG`, whose `Repr`-level calls — and the `Extend` / `FromIterator` loops of
+`lib.rs` — are the *translations* that `tools/rs2lean.py` regenerates on every run (61 functions; `retain`, the
+integer writer, `Display` and the decoders stay hand-modelled).  It follows from the tie theorems (`LSProofs/Gen`) and `run_refines`.
 -/
 namespace LS.C01G
 open LS LS.GenTie
@@ -13,15 +13,15 @@ open LS LS.GenTie
 /-- every history of public calls, executed by the translated code, is a run of the `String` specification;
 the world stays well-formed; no alarm -/
 theorem translated_histories_refine_string (rf : Refuse) (ops : List Op) (w : World) (hw : Wf w)
-    (hv : ∀ op ∈ ops, op.ArgsValid) (hs : RcSmallAlong rf w ops) :
+    (hv : ∀ op ∈ ops, op.ArgsValid) (hcs : ∀ op ∈ ops, Op.CharItems op) (hs : RcSmallAlong rf w ops) :
     Spec.Run w.statics w.text ops (runG rf w ops).text (outsG rf w ops) ∧ Wf (runG rf w ops) ∧
     ∀ u, Out.ub u ∉ outsG rf w ops :=
-  runG_refines rf ops w hw hv hs
+  runG_refines rf ops w hw hv hcs hs
 
 /-- one call: the translated code and the hand model compute the same world and the same output -/
 theorem translated_call_is_model_call (rf : Refuse) {w : World} (hw : Wf w) (hrc : RcSmall w.heap) (op : Op)
-    (hv : op.ArgsValid) : stepG rf w op = step rf w op :=
-  stepG_eq_step rf hw hrc op hv
+    (hv : op.ArgsValid) (hc : Op.CharItems op) : stepG rf w op = step rf w op :=
+  stepG_eq_step rf hw hrc op hv hc
 
 /-- non-vacuity: the empty world is well-formed, no count is large, and a concrete history runs -/
 example : RcSmallAlong (fun _ _ => false) {} [.fromStr 0 [0x61] true, .pushStr 0 [0x62] true] ∧ Wf ({} : World) := by
